@@ -40,7 +40,7 @@ FAMILY = {  # probed trait -> traits derived together (supertraits first)
 }
 PROBES = {"Add": ["IsAddVV", "IsAddVR", "IsAddRV", "IsAddRR"], "AddAssign": ["IsAddAssignV", "IsAddAssignR"], "Neg": ["IsNegV", "IsNegR"]}
 ONLY = {"Clone": ["PClone"], "Copy": ["PCopy", "PClone"], "Debug": ["PDebug"], "Default": ["PDefault"], "PartialEq": ["PPartialEq"], "Eq": ["PEq", "PPartialEq"],
-        "PartialOrd": ["PPartialOrd", "PPartialEq"], "Ord": ["POrd", "PPartialOrd"], "Hash": ["PHash"], "Add": ["PAddVV", "PAddRR"], "AddAssign": ["PAddAssignV", "PAddAssignR"],
+        "PartialOrd": ["PPartialOrd", "PPartialEq"], "Ord": ["POrd", "PPartialOrd"], "Hash": ["PHash"], "Add": ["PAddVV", "PAddRR", "PAddTied"], "AddAssign": ["PAddAssignV", "PAddAssignR"],
         "Neg": ["PNegV", "PNegR"]}
 CMP = ("PartialEq", "Eq", "PartialOrd", "Ord", "Hash")
 
@@ -240,7 +240,7 @@ def programs(tier, rnd, start=0):
     b = []
     for pr, yes in (("IsClone", "PClone"), ("IsCopy", "PCopy"), ("IsDebug", "PDebug"), ("IsDefault", "PDefault"), ("IsPartialEq", "PPartialEq"), ("IsEq", "PEq"),
                     ("IsPartialOrd", "PPartialOrd"), ("IsOrd", "POrd"), ("IsHash", "PHash"), ("IsAddVV", "PAddVV"), ("IsAddRR", "PAddRR"), ("IsNegV", "PNegV"), ("IsNegR", "PNegR"),
-                    ("IsAddAssignV", "PAddAssignV"), ("IsAddAssignR", "PAddAssignR"), ("IsAddVR", "PAll"), ("IsAddRV", "PAll")):
+                    ("IsAddAssignV", "PAddAssignV"), ("IsAddAssignR", "PAddAssignR"), ("IsAddVR", "PAll"), ("IsAddRV", "PAll"), ("IsAddRR", "PAddTied")):
         b.append('    assert!(<%s<%s>>::V && !<%s<PNone>>::V, "probe-%s");' % (pr, yes, pr, pr))
     b.append('    assert!(!<IsAddRR<PAddVV>>::V && !<IsAddVV<PAddRR>>::V && !<IsCopy<PClone>>::V && !<IsOrd<PPartialOrd>>::V, "probe-forms");')
     name = "q%05d" % (start + len(progs))
